@@ -107,6 +107,21 @@ Proof.
   apply run_seq_given_transparent.
 Qed.
 
+(* the same through the retrying client (retryclient.go): whatever the application publishes (QoS,
+   own identifier or none), however many connections there are, whatever their counters, wherever
+   they are cut — every PUBLISH attempt, first or repeated, sent directly or deferred behind a
+   pending retry (the queued copy is the whole message value, retryclient.go:167-173), carries a
+   non-zero identifier, and the caller's own whenever the caller provided one *)
+Theorem C15_caller_id_kept_retry : forall ops conn m,
+  In (conn, m) (run_retry ops) ->
+  r_id m <> 0 /\ (r_given m <> 0 -> r_id m = r_given m).
+Proof.
+  intros ops conn m Hin. pose proof (retry_sent_ok ops) as H. unfold wire_ok in H.
+  rewrite Forall_forall in H. specialize (H _ Hin). cbn [snd] in H. unfold sent_ok in H.
+  apply andb_true_iff in H as [H1 H2]. apply negb_true_iff in H1. apply N.eqb_neq in H1.
+  split; [exact H1|]. intros Hg. apply orb_true_iff in H2 as [H2|H2]; apply N.eqb_eq in H2; congruence.
+Qed.
+
 (* The statement as written ("no identifier is given to two requests outstanding at the same
    time ... up to 65,535 outstanding") is FALSE for the code: there is a history with never more
    than two requests outstanding in which two outstanding requests share an identifier (one
@@ -143,6 +158,7 @@ Print Assumptions C15_unique_if_window.
 Print Assumptions C15_back_to_back.
 Print Assumptions C15_wrap.
 Print Assumptions C15_caller_id_kept.
+Print Assumptions C15_caller_id_kept_retry.
 Print Assumptions C15_strict_refuted.
 Print Assumptions C15_reuse_period.
 Print Assumptions C15_checked_predicate.
